@@ -759,6 +759,34 @@ let suite_lockp (line : string) : string =
       Printf.sprintf "%s %s | maxopen=%d" id (String.concat " " res) !maxopen
   | _ -> failwith "bad lockp case"
 
+(* ---------- suite: lockfd (lock_file in its two system calls) ---------- *)
+let suite_lockfd (line : string) : string =
+  match split_nonempty ' ' line with
+  | id :: steps ->
+      let w = ref fworld_init in
+      let show = function LfOk -> "ok" | LfErr -> "err" | LfNone -> "none" | LfParked -> "parked" in
+      let res =
+        List.map
+          (fun st ->
+            let body = String.sub st 1 (String.length st - 1) in
+            match st.[0] with
+            | 'P' | 'G' -> "*"
+            | c ->
+                let a = match c with
+                  | 'O' -> LfOpen (name_id body)
+                  | 'X' -> LfClose (name_id body)
+                  | 'I' -> LfOpenFd (name_id body)
+                  | 'L' -> LfLock (name_id body)
+                  | 'D' -> LfDestroy
+                  | _ -> failwith "bad lockfd step" in
+                let w', o = fstep true !w a in
+                w := w';
+                show o)
+          steps
+      in
+      Printf.sprintf "%s %s" id (String.concat " " res)
+  | _ -> failwith "bad lockfd case"
+
 (* ---------- suite: sched (the concurrency model on Tier-A scripts) ---------- *)
 (* case: <id> <cfg> step ...  with a third field d6fix flag appended to cfg as "...:reuse:d6"
    (default 1). Steps the model does not cover (scans, snapshots, compaction of tables) print "*". *)
@@ -1382,7 +1410,12 @@ let suite_tfile (line : string) : string =
       let hp s = match String.split_on_char ':' s with [ a; b ] -> { h_off = n_of_string a; h_size = n_of_string b } | _ -> failwith "handle" in
       let mh, ih = match String.split_on_char ',' foot with [ a; b ] -> (hp a, hp b) | _ -> failwith "footer" in
       let bl = if blocks = "-" then [] else List.map hp (String.split_on_char ';' blocks) in
-      let ok_block f h = match read_block_at f h with BOk (_, _) -> true | _ -> false in
+      (* a handle that points beyond the end of the file reads as BShort (lemma
+         read_block_at_beyond_eof); evaluating read_block_at on it would convert an offset of up
+         to 2^64 to a unary nat *)
+      let ok_block f h =
+        if N.ltb (n_of_int (List.length f)) (N.add (N.add h.h_off h.h_size) (n_of_int 5)) then false
+        else match read_block_at f h with BOk (_, _) -> true | _ -> false in
       let problems = ref [] in
       let complain m = if List.length !problems < 3 then problems := m :: !problems in
       (* the unchanged file: footer decodes to the reported handles and re-encodes to its last 48
@@ -1479,6 +1512,7 @@ let () =
     | "wspec" -> suite_wspec
     | "lock" -> suite_lock
     | "lockp" -> suite_lockp
+    | "lockfd" -> suite_lockfd
     | "sched" -> suite_sched
     | "codec" -> suite_codec
     | "gccheck" -> suite_gccheck
